@@ -19,13 +19,21 @@ import (
 // endpoint.
 type Server struct {
 	srv *http.Server
+
+	// done is closed when the serving goroutine has returned.
+	done chan struct{}
 }
 
 // Stop shuts down the server.
 func (s *Server) Stop() stop.Result {
 	c := make(stop.Channel)
 	go func() {
-		c.Done(s.srv.Shutdown(context.Background()))
+		err := s.srv.Shutdown(context.Background())
+		// A serving goroutine that had not got to listen yet when Shutdown
+		// ran still binds the address before it notices: wait for it, so
+		// that the address is free when Stop completes.
+		<-s.done
+		c.Done(err)
 	}()
 
 	return c.Result()
@@ -49,9 +57,11 @@ func NewServer(addr string) *Server {
 			Handler:           mux,
 			ReadHeaderTimeout: time.Second * 60,
 		},
+		done: make(chan struct{}),
 	}
 
 	go func() {
+		defer close(s.done)
 		if err := s.srv.ListenAndServe(); !errors.Is(err, http.ErrServerClosed) {
 			log.Fatal("failed while serving prometheus", log.Err(err))
 		}
